@@ -128,23 +128,30 @@ Definition bulk_compatible (d s : schema) : bool :=
   && (length (s_notnull d) =? length (s_notnull s))
   && forallb (fun p => negb (fst p && negb (snd p))) (combine (s_notnull d) (s_notnull s)).
 
-(** execute_bulk_transfer: validate and insert row by row; an error at row k leaves rows < k
-    inserted.  Returns (table, result, inserted rows). *)
-Fixpoint bulk_loop (t : table) (seen_pk : list key) (seen_uq : list (list key)) (src : list row)
-         (cnt : nat) (ins : list row) : table * result * list row :=
+(** execute_bulk_transfer, phase A: every source row is validated against the destination AS IT IS
+    BEFORE THE STATEMENT and against the rows in front of it in the batch; nothing is inserted
+    until all rows have passed, so a constraint failure leaves the table unchanged. *)
+Fixpoint bulk_validate (t : table) (seen_pk : list key) (seen_uq : list (list key)) (src : list row) : bool :=
+  match src with
+  | [] => true
+  | r :: rest =>
+      let s := t_sch t in
+      bulk_pk_ok t seen_pk r
+      && bulk_unique_ok (s_uniqs s) seen_uq (t_uqidx t) r
+      && checks_ok (s_checks_enf s) r
+      && bulk_validate t
+           (match s_pk s with Some cols => seen_pk ++ [proj cols r] | None => seen_pk end)
+           (bulk_seen_uq_push (s_uniqs s) seen_uq r) rest
+  end.
+
+(** phase B: Database::insert_row for every row; a storage-level failure (UNIQUE index, NOT
+    NULL) at row k leaves rows < k inserted.  Returns (table, result, inserted rows). *)
+Fixpoint bulk_insert (t : table) (src : list row) (cnt : nat) (ins : list row) : table * result * list row :=
   match src with
   | [] => (t, ROk cnt, ins)
   | r :: rest =>
-      let s := t_sch t in
-      if negb (bulk_pk_ok t seen_pk r) then (t, RErrConstraint, ins)
-      else if negb (bulk_unique_ok (s_uniqs s) seen_uq (t_uqidx t) r) then (t, RErrConstraint, ins)
-      else if negb (checks_ok (s_checks_enf s) r) then (t, RErrConstraint, ins)
-      else
-        let seen_pk' := match s_pk s with Some cols => seen_pk ++ [proj cols r] | None => seen_pk end in
-        let seen_uq' := bulk_seen_uq_push (s_uniqs s) seen_uq r in
-        let '(t', ok) := db_insert_row t r in
-        if ok then bulk_loop t' seen_pk' seen_uq' rest (S cnt) (ins ++ [r])
-        else (t', RErrStorage, ins)
+      let '(t', ok) := db_insert_row t r in
+      if ok then bulk_insert t' rest (S cnt) (ins ++ [r]) else (t', RErrStorage, ins)
   end.
 
 (** The bulk path reads the source table's rows directly ([src_table.scan()]).  The fallback
@@ -153,7 +160,8 @@ Fixpoint bulk_loop (t : table) (seen_pk : list key) (seen_uq : list (list key)) 
 Definition do_insert_select (dst : table) (same : bool) (src_sch : schema) (src_rows sel : list row)
   : table * result * list row :=
   if negb same && bulk_compatible (t_sch dst) src_sch then
-    bulk_loop dst [] (map (fun _ => []) (s_uniqs (t_sch dst))) src_rows 0 []
+    if bulk_validate dst [] (map (fun _ => []) (s_uniqs (t_sch dst))) src_rows
+    then bulk_insert dst src_rows 0 [] else (dst, RErrConstraint, [])
   else if negb (s_ncols src_sch =? s_ncols (t_sch dst)) then (dst, RErrOther, [])
   else do_insert_values dst sel.
 
@@ -303,8 +311,8 @@ Definition do_truncate (t : table) : table * result :=
 Definition index_exists (name : Z) (ts : list table) : bool :=
   existsb (fun t => existsb (fun u => Z.eqb (ui_name u) name) (t_uidx t)) ts.
 
-(** IndexManager::create_index: the data is built from the current rows; UNIQUE is only
-    recorded, existing duplicates are not looked for *)
+(** IndexManager::create_index: a UNIQUE index over rows that already hold a duplicate NULL-free
+    key is refused (checked in [step]); otherwise the data is built from the current rows *)
 Definition do_create_index (t : table) (name : Z) (uniq : bool) (cols : list nat) : table :=
   set_uidx t (t_uidx t ++ [{| ui_name := name; ui_unique := uniq; ui_cols := cols;
                               ui_data := ui_rebuild cols (t_rows t) |}]).
@@ -347,12 +355,29 @@ Definition do_add_check (t : table) (c : pred) : table * result :=
 (* ------------------------------------------------------------------------------------ *)
 (** * Transactions *)
 
-(** rollback_transaction: catalog and table map are replaced by the snapshot; the index
-    manager (user indexes) is not part of it *)
-Fixpoint restore_tabs (cur snap : list table) : list table :=
-  match cur, snap with
-  | c :: cur', s :: snap' => set_uidx s (t_uidx c) :: restore_tabs cur' snap'
-  | _, _ => snap
+(** rollback_transaction: catalog and table map are replaced by the snapshot; then every index of
+    the index manager is dropped and the indexes that existed at BEGIN (their definitions are
+    part of the snapshot) are created again from the restored rows with
+    [IndexManager::create_index] -- which refuses a UNIQUE index over duplicate keys: the first
+    refusal aborts the loop (error returned, the remaining indexes stay dropped).
+    The engine walks the definitions in HashMap order; the model walks them table by table in
+    list order, which only matters when a re-creation is refused. *)
+Fixpoint recreate_uidx (defs : list uindex) (rows : list row) : list uindex * bool :=
+  match defs with
+  | [] => ([], true)
+  | u :: rest =>
+      if ui_unique u && has_dup (somes (uq_kf (ui_cols u)) rows) then ([], false)
+      else let '(l, ok) := recreate_uidx rest rows in
+           (ui_set_data u (ui_rebuild (ui_cols u) rows) :: l, ok)
+  end.
+
+Fixpoint restore_tabs (snap : list table) : list table * bool :=
+  match snap with
+  | [] => ([], true)
+  | s :: rest =>
+      let '(us, ok) := recreate_uidx (t_uidx s) (t_rows s) in
+      if ok then let '(ts, ok2) := restore_tabs rest in (set_uidx s us :: ts, ok2)
+      else (set_uidx s us :: map (fun t => set_uidx t []) rest, false)
   end.
 
 Fixpoint save_pos (name : Z) (l : list (Z * nat)) (n : nat) : option (nat * nat) :=
@@ -433,6 +458,7 @@ Definition step (d : db) (s : stmt) : db * result :=
       | Some t =>
           if negb (cols_valid (t_sch t) cols) then (d, RErrOther)        (* ColumnNotFound *)
           else if index_exists name (d_tabs d) then (d, RErrOther)        (* IndexAlreadyExists *)
+          else if uniq && has_dup (somes (uq_kf cols) (t_rows t)) then (d, RErrStorage)   (* UniqueConstraintViolation *)
           else ({| d_tabs := upd_nth ti (fun t => do_create_index t name uniq cols) (d_tabs d);
                    d_txn := d_txn d |}, ROk 0)
       end
@@ -457,7 +483,8 @@ Definition step (d : db) (s : stmt) : db * result :=
   | SRollback =>
       match d_txn d with
       | None => (d, RErrOther)
-      | Some x => ({| d_tabs := restore_tabs (d_tabs d) (x_snap x); d_txn := None |}, ROk 0)
+      | Some x => let '(ts, ok) := restore_tabs (x_snap x) in
+                  ({| d_tabs := ts; d_txn := None |}, if ok then ROk 0 else RErrOther)
       end
   | SSavepoint name =>
       match d_txn d with
